@@ -67,6 +67,9 @@ mod types;
 
 pub(crate) mod handle;
 
+#[cfg(feature = "verif")]
+pub mod verif;
+
 // TODO: https://github.com/paritytech/litep2p/issues/268 Periodically clean up idle peers.
 // TODO: https://github.com/paritytech/litep2p/issues/344 add lots of documentation
 
